@@ -600,7 +600,7 @@ func c19(e *Env) {
 		}
 		cmd := exec.Command(bin, append([]string{"C19", "--tier", e.Tier, "--seed", fmt.Sprint(e.Seed)}, strings.Fields(mode)...)...)
 		cmd.Env = append(os.Environ(), "VERIF_CHILD=1", "GORACE=halt_on_error=0 log_path="+logBase+"/race")
-		out, err := cmd.CombinedOutput()
+		out, err := watchedOutput(r, cmd, e.Thorough, label)
 		races := 0
 		var firstReport string
 		for _, f := range globLogs(logBase) {
